@@ -148,6 +148,9 @@ pub(crate) mod prelude {
             result
         }
     }
+
+    #[cfg(kani)]
+    include!(concat!(env!("TOML_VERIF_KANI"), "/toml_edit/parser_prelude.rs"));
 }
 
 #[cfg(test)]
